@@ -15,6 +15,7 @@ import (
 	"runtime"
 	"sort"
 	"strconv"
+	"strings"
 	"sync/atomic"
 	"time"
 
@@ -178,11 +179,16 @@ func stressOne(sh *shape, consumers, producers int, salt uint64, inject int, use
 		}
 		return p
 	}
-	failList := func(p string) bool { return inject == 2 && p != "./" && mix(strip(p), salt+2)%7 == 0 }
+	failList := func(p string) bool {
+		if inject == 3 {
+			return p == "./" // the root listing itself fails
+		}
+		return inject == 2 && p != "./" && mix(strip(p), salt+2)%7 == 0
+	}
 	// spec tree with the listable flags this run uses
 	var mark func(base string, n *node) *node
 	mark = func(base string, n *node) *node {
-		c := &node{name: n.name, dir: true, listable: base == "./" || !failList(strip(base))}
+		c := &node{name: n.name, dir: true, listable: !failList(strip(base))}
 		for _, k := range n.kids {
 			if k.dir {
 				c.kids = append(c.kids, mark(base+k.name+"/", k))
@@ -193,11 +199,12 @@ func stressOne(sh *shape, consumers, producers int, salt uint64, inject int, use
 		return c
 	}
 	spec := sh.tree
-	if inject == 2 {
+	if inject >= 2 {
 		spec = mark("./", sh.tree)
 	}
 	sel, listFails := selectedOf(&cfg, "./", spec)
-	failCb := func(item string) bool { return inject == 1 && mix(item, salt+3)%97 == 0 }
+	fm := uint64(len(sel)/4 + 1) // about four failing callbacks, whatever the size
+	failCb := func(item string) bool { return inject == 1 && mix(item, salt+3)%fm == 0 }
 	rec := &recorder{}
 	ffs := &failFS{FS: sh.fs, fail: failList, mu: make(chan struct{}, 1)}
 	data := &fsloop.LoopData{Filespace: ffs, Consumers: consumers, Producents: producers}
@@ -248,7 +255,7 @@ func stressOne(sh *shape, consumers, producers int, salt uint64, inject int, use
 	anyFailure := len(rec.cbErrs) > 0 || len(listErrs) > 0
 	ndone := len(rec.done)
 	rec.mu.Unlock()
-	v := verdict(rec, sel, len(listFails), listErrs, errs, consumers, activeAtWait, anyFailure)
+	v := verdict(rec, sel, len(listFails), listErrs, errs, consumers, activeAtWait, anyFailure, false)
 	// no callback may start after Wait returned (waiting here can only miss, never false-alarm)
 	time.Sleep(300 * time.Microsecond)
 	late := atomic.LoadInt32(&rec.started) != startedAtWait
@@ -293,7 +300,7 @@ func stress(tier string) {
 				runtime.GOMAXPROCS(g)
 				inject := 0
 				if r.Chance(1, 4) {
-					inject = 1 + r.Intn(2)
+					inject = 1 + r.Intn(3)
 				}
 				useFF, useDF := r.Chance(2, 3), r.Chance(2, 3)
 				onDir, onFile := !r.Chance(1, 10), !r.Chance(1, 10)
@@ -303,13 +310,113 @@ func stress(tier string) {
 				if res.verdict != "ok" {
 					fails++
 				}
+				hung := strings.Contains(res.verdict, "wait-never-returned")
 				fmt.Fprintf(w, "stress shape=%s c=%d p=%d gmp=%d inject=%d ff=%v df=%v ondir=%v onfile=%v salt=%d sel=%d done=%d errs=%d maxcb=%d verdict=%s\n",
 					sh.name, pr.c, pr.p, g, inject, useFF, useDF, onDir, onFile, salt, res.sel, res.done, res.nerr, res.maxAct, res.verdict)
+				if hung { // every further run would cost a full watchdog period
+					fmt.Fprintf(w, "stress-summary runs=%d fails=%d shapes=%d aborted-after-hang\n", runs, fails, len(shs))
+					return
+				}
 			}
 		}
 		w.Flush()
 	}
 	fmt.Fprintf(w, "stress-summary runs=%d fails=%d shapes=%d goroutines=%d\n", runs, fails, len(shs), runtime.NumGoroutine())
+}
+
+// stressOneLine re-runs the configuration of one `stress …` result line `reps` times (replay).
+func stressOneLine(line string, reps int) {
+	f := map[string]string{}
+	for _, t := range strings.Fields(line) {
+		if i := strings.IndexByte(t, '='); i > 0 {
+			f[t[:i]] = t[i+1:]
+		}
+	}
+	r := hx.NewRand(1)
+	var sh *shape
+	for _, s := range shapes(r, true) {
+		if s.name == f["shape"] {
+			sh = s
+		}
+	}
+	if sh == nil {
+		fmt.Println("stress-replay unknown-shape (random shapes depend on VERIF_SEED of the original run)")
+		return
+	}
+	c, _ := strconv.Atoi(f["c"])
+	p, _ := strconv.Atoi(f["p"])
+	g, _ := strconv.Atoi(f["gmp"])
+	inj, _ := strconv.Atoi(f["inject"])
+	salt, _ := strconv.ParseUint(f["salt"], 10, 64)
+	if g > 0 {
+		runtime.GOMAXPROCS(g)
+	}
+	fails := 0
+	for i := 0; i < reps; i++ {
+		res := stressOne(sh, c, p, salt, inj, f["ff"] == "true", f["df"] == "true", f["ondir"] == "true", f["onfile"] == "true")
+		if res.verdict != "ok" {
+			fails++
+			fmt.Printf("stress-replay rep=%d sel=%d done=%d errs=%d verdict=%s\n", i, res.sel, res.done, res.nerr, res.verdict)
+		}
+	}
+	fmt.Printf("stress-replay-summary reps=%d fails=%d\n", reps, fails)
+}
+
+// hammer: the exit race of the consumer protocol is most exposed when there is almost nothing to do
+// and a single consumer (what fshelper.Copy configures): tiny trees on an in-process stub filespace,
+// many rounds, every round judged by "Wait returned, error list empty => every selected node visited".
+func hammer(rounds int) {
+	r := hx.NewRand(hx.SeedFromEnv()*0x9e3779b97f4a7c15 + 8888)
+	trees := []*node{
+		dirOf("", &node{name: "a"}),
+		dirOf("", dirOf("d")),
+		dirOf("", dirOf("d", &node{name: "x"})),
+		dirOf("", &node{name: "a"}, &node{name: "b"}, dirOf("d", &node{name: "x"}, &node{name: "y"})),
+	}
+	backings := make([]filesystem.Filespace, len(trees))
+	for i, t := range trees {
+		backings[i] = backing(t)
+	}
+	gmps := []int{1, 2, 3, 4, 8, 16}
+	old := runtime.GOMAXPROCS(0)
+	defer runtime.GOMAXPROCS(old)
+	fails := 0
+	first := ""
+	for i := 0; i < rounds; i++ {
+		if i%500 == 0 {
+			runtime.GOMAXPROCS(gmps[r.Intn(len(gmps))])
+		}
+		ti := r.Intn(len(trees))
+		if i%2 == 0 {
+			ti = 0
+		}
+		t := trees[ti]
+		consumers := 1
+		if r.Chance(1, 4) {
+			consumers = 1 + r.Intn(3)
+		}
+		fs := &stubFS{FS: backings[ti], root: t, rootPath: "./"}
+		var nd, nf int32
+		data := &fsloop.LoopData{Filespace: fs, Consumers: consumers, Producents: 1 + r.Intn(2),
+			OnFile: func(_ filesystem.Filespace, p string) error { atomic.AddInt32(&nf, 1); return nil },
+			OnDir:  func(_ filesystem.Filespace, p string) error { atomic.AddInt32(&nd, 1); return nil }}
+		cfg := walkCfg{onFile: true, onDir: true}
+		sel, _ := selectedOf(&cfg, "./", t)
+		loop := fsloop.NewLoop(data, nil)
+		loop.Run("")
+		loop.Wait()
+		if len(loop.Errors()) == 0 && int(atomic.LoadInt32(&nd)+atomic.LoadInt32(&nf)) != len(sel) {
+			fails++
+			if first == "" {
+				first = fmt.Sprintf("round=%d consumers=%d selected=%d callbacks=%d", i, consumers, len(sel), nd+nf)
+			}
+		}
+	}
+	if fails > 0 {
+		fmt.Printf("hammer rounds=%d fails=%d verdict=FAIL(skipped-or-repeated) first: %s\n", rounds, fails, first)
+	} else {
+		fmt.Printf("hammer rounds=%d fails=0 verdict=ok\n", rounds)
+	}
 }
 
 var _ = sort.Strings
